@@ -6,8 +6,8 @@ from ..sim import Monitor
 from .common import all_demes, flat, gb, strictly_better
 
 PROP = "C10"
-N_QUICK = 3000
-N_THOROUGH = 60000
+N_QUICK = 8000
+N_THOROUGH = 200000
 RULE = ("Reference specification of generators / filters evaluated on every candidate set the simulated trees produce: "
         "candidate sets come from real populations of 1-24 individuals per parent, several parents per level (3-level "
         "trees), ties from plateau objectives, both directions, full / partly full / empty target levels, arbitrary "
